@@ -28,13 +28,13 @@ CONSTANTS MaxPw,      \* training passwords have 1..MaxPw characters
           MaxCand     \* candidates have 1..MaxCand characters
 
 Lowers == {"a", "b"}
-Uppers == {"A", "B"}
+Uppers == {"A"}
 Chars == Lowers \cup Uppers \cup {"1", "!"}
 IsA(c) == c \in Lowers \cup Uppers
 IsD(c) == c = "1"
 IsU(c) == c \in Uppers
-Lower(c) == CASE c = "A" -> "a" [] c = "B" -> "b" [] OTHER -> c
-Upper(c) == CASE c = "a" -> "A" [] c = "b" -> "B" [] OTHER -> c
+Lower(c) == CASE c = "A" -> "a" [] OTHER -> c
+Upper(c) == CASE c = "a" -> "A" [] c = "b" -> "B" [] OTHER -> c          \* "B" can be spelled by the guesser but never occurs in a list
 Strs(n) == UNION { [1..k -> Chars] : k \in 1..n }
 
 (* ---- segmentation (shared by trainer and scorer) ---- *)
@@ -53,12 +53,13 @@ Items(pw) == LET sl == Runs(pw) IN
       IF sl[i].k = "A" THEN << <<"A", Len(sl[i].t), LowerStr(sl[i].t)>>, <<"C", Len(sl[i].t), MaskOf(sl[i].t)>> >>
       ELSE << <<sl[i].k, Len(sl[i].t), sl[i].t>> >>])
 
-(* ---- trainer: tallies over the list ---- *)
+(* ---- trainer: tallies over the list (AllItems(list) is cached in the state variable `items`: TLC re-evaluates ---- *)
+(* ---- operators on every use)                                                                                    ---- *)
 AllItems(L) == FlattenSeq([k \in DOMAIN L |-> Items(L[k])])
-Count(L, it) == Cardinality({ j \in DOMAIN AllItems(L) : AllItems(L)[j] = it })
-Total(L, tab, n) == Cardinality({ j \in DOMAIN AllItems(L) : AllItems(L)[j][1] = tab /\ AllItems(L)[j][2] = n })
-Table(L, tab, n) == { AllItems(L)[j][3] : j \in { j \in DOMAIN AllItems(L) : AllItems(L)[j][1] = tab /\ AllItems(L)[j][2] = n } }
-P(L, tab, n, v) == <<Count(L, <<tab, n, v>>), Total(L, tab, n)>>            \* 0/0 never used: only for tables that exist
+Count(I, it) == Cardinality({ j \in DOMAIN I : I[j] = it })
+Total(I, tab, n) == Cardinality({ j \in DOMAIN I : I[j][1] = tab /\ I[j][2] = n })
+Table(I, tab, n) == { I[j][3] : j \in { j \in DOMAIN I : I[j][1] = tab /\ I[j][2] = n } }
+P(I, tab, n, v) == <<Count(I, <<tab, n, v>>), Total(I, tab, n)>>            \* only used for tables that exist
 Bases(L) == { Struct(L[k]) : k \in DOMAIN L }
 PBase(L, b) == <<Cardinality({ k \in DOMAIN L : Struct(L[k]) = b }), Len(L)>>
 
@@ -70,52 +71,59 @@ RECURSIVE Prod(_)
 Prod(s) == IF s = <<>> THEN <<1, 1>> ELSE Mul(Head(s), Prod(Tail(s)))
 
 (* ---- scorer ---- *)
-Score(L, s) ==
+Score(L, I, s) ==
    LET its == Items(s)
-       f(i) == IF Total(L, its[i][1], its[i][2]) = 0 THEN <<0, 1>>              \* KeyError: no table of that length
-               ELSE P(L, its[i][1], its[i][2], its[i][3])
+       f(i) == IF Total(I, its[i][1], its[i][2]) = 0 THEN <<0, 1>>              \* KeyError: no table of that length
+               ELSE P(I, its[i][1], its[i][2], its[i][3])
        b == IF Struct(s) \in Bases(L) THEN PBase(L, Struct(s)) ELSE <<0, 1>>
    IN Mul(Prod([i \in DOMAIN its |-> f(i)]), b)
 
 (* ---- guesser: derivations of a base structure; the variable list has C<n> after every A<n> ---- *)
 Vars(b) == FlattenSeq([i \in DOMAIN b |-> IF b[i][1] = "A" THEN << <<"A", b[i][2]>>, <<"C", b[i][2]>> >> ELSE << b[i] >>])
-Derivs(L, b) == LET vs == Vars(b) IN { d \in [DOMAIN vs -> UNION { Table(L, vs[i][1], vs[i][2]) : i \in DOMAIN vs }] :
-                                        \A i \in DOMAIN vs : d[i] \in Table(L, vs[i][1], vs[i][2]) }
+Derivs(I, b) == LET vs == Vars(b)
+                    tb == [i \in DOMAIN vs |-> Table(I, vs[i][1], vs[i][2])] IN
+                { d \in [DOMAIN vs -> UNION { tb[i] : i \in DOMAIN vs }] : \A i \in DOMAIN vs : d[i] \in tb[i] }
 ApplyMask(w, m) == [i \in DOMAIN w |-> IF m[i] = "U" THEN Upper(w[i]) ELSE w[i]]
 RECURSIVE SpellFrom(_, _, _)
 SpellFrom(vs, d, i) == IF i > Len(vs) THEN <<>>
                        ELSE IF vs[i][1] = "A" THEN ApplyMask(d[i], d[i + 1]) \o SpellFrom(vs, d, i + 2)
                        ELSE d[i] \o SpellFrom(vs, d, i + 1)
 Spell(b, d) == SpellFrom(Vars(b), d, 1)
-DProb(L, b, d) == LET vs == Vars(b) IN Mul(Prod([i \in DOMAIN vs |-> P(L, vs[i][1], vs[i][2], d[i])]), PBase(L, b))
+DProb(L, I, b, d) == LET vs == Vars(b) IN Mul(Prod([i \in DOMAIN vs |-> P(I, vs[i][1], vs[i][2], d[i])]), PBase(L, b))
 
 ---------------------------------------------------------------------------
-VARIABLES list, cand
-vars == <<list, cand>>
+VARIABLES list, items, cand
+vars == <<list, items, cand>>
 Lists == UNION { [1..n -> Strs(MaxPw)] : n \in 1..MaxList }
-Init == list \in Lists /\ cand \in Strs(MaxCand)
-Spec == Init /\ [][UNCHANGED vars]_vars
+(* the candidate is chosen in a step (not in Init) so that TLC's workers share the evaluation *)
+Init == list \in Lists /\ items = AllItems(list) /\ cand = <<>>
+Pick == cand = <<>> /\ cand' \in Strs(MaxCand) /\ UNCHANGED <<list, items>>
+Spec == Init /\ [][Pick]_vars
 
 (* C03 *)
-TrainingReproduced == \A k \in DOMAIN list : \E d \in Derivs(list, Struct(list[k])) : Spell(Struct(list[k]), d) = list[k]
+TrainingReproduced == cand = <<>> => \A k \in DOMAIN list : \E d \in Derivs(items, Struct(list[k])) : Spell(Struct(list[k]), d) = list[k]
 (* sum over all derivations = 1, in integers over the common denominator of each structure *)
 SumNum(S, f(_)) == FoldSet(LAMBDA x, acc : acc + f(x), 0, S)
-SumsToOne == LET D == Len(list)
-                 per(b) == LET ds == Derivs(list, b)
-                               den == IF ds = {} THEN 1 ELSE DProb(list, b, CHOOSE d \in ds : TRUE)[2] IN
+SumsToOne == cand # <<>> \/ LET D == Len(list)
+                 per(b) == LET ds == Derivs(items, b)
+                               den == IF ds = {} THEN 1 ELSE DProb(list, items, b, CHOOSE d \in ds : TRUE)[2] IN
                            \* every derivation of b has the same denominator (product of the table totals x |list|)
-                           /\ \A d \in ds : DProb(list, b, d)[2] = den
-                           /\ SumNum(ds, LAMBDA d : DProb(list, b, d)[1]) * D = den * PBase(list, b)[1]
+                           /\ \A d \in ds : DProb(list, items, b, d)[2] = den
+                           /\ SumNum(ds, LAMBDA d : DProb(list, items, b, d)[1]) * D = den * PBase(list, b)[1]
              IN \A b \in Bases(list) : per(b)
 (* C13 *)
-PromiseKept == LET sc == Score(list, cand) IN
-   ~IsZero(sc) => /\ Struct(cand) \in Bases(list)
-                  /\ \E d \in Derivs(list, Struct(cand)) : Spell(Struct(cand), d) = cand /\ Eq(DProb(list, Struct(cand), d), sc)
-(* and conversely: whatever the guesser spells gets exactly the derivation's probability from the scorer, when the *)
-(* derivation is the only one spelling it (always the case here: segmentation is a function of the string)         *)
-ScoreOfGuess == \A b \in Bases(list) : \A d \in Derivs(list, b) :
-                   Spell(b, d) = cand => Eq(Score(list, cand), DProb(list, b, d))
+PromiseKept == LET sc == Score(list, items, cand) IN
+   (cand # <<>> /\ ~IsZero(sc)) => /\ Struct(cand) \in Bases(list)
+                  /\ \E d \in Derivs(items, Struct(cand)) :
+                        Spell(Struct(cand), d) = cand /\ Eq(DProb(list, items, Struct(cand), d), sc)
+(* and conversely: whatever the guesser spells gets exactly the derivation's probability from the scorer (the   *)
+(* segmentation is a function of the string, so the derivation spelling a string is unique)                   *)
+ScoreOfGuess == (cand # <<>> /\ Struct(cand) \in Bases(list)) =>
+                   \A d \in Derivs(items, Struct(cand)) :
+                      Spell(Struct(cand), d) = cand => Eq(Score(list, items, cand), DProb(list, items, Struct(cand), d))
+(* structures of other shape never spell the candidate *)
+OnlyOwnStructure == cand # <<>> => \A b \in Bases(list) \ {Struct(cand)} : \A d \in Derivs(items, b) : Spell(b, d) # cand
 (* C06 *)
-TablesSumToOne == \A it \in { AllItems(list)[j] : j \in DOMAIN AllItems(list) } :
-                     SumNum(Table(list, it[1], it[2]), LAMBDA v : Count(list, <<it[1], it[2], v>>)) = Total(list, it[1], it[2])
+TablesSumToOne == cand = <<>> => \A it \in { items[j] : j \in DOMAIN items } :
+                     SumNum(Table(items, it[1], it[2]), LAMBDA v : Count(items, <<it[1], it[2], v>>)) = Total(items, it[1], it[2])
 =============================================================================
